@@ -43,165 +43,15 @@ theorem programOf_shape (c : Circuit) :
         ((gdefsOf c).map Stmt.gate ++ c.ops.filterMap stmtOfOp)) := by
   simp [programOf, gdefsOf, List.filterMap_map, List.map_filterMap, Function.comp_def]
 
-/-! ## cache keys of the re-imported user gates -/
-
-/-- texts of numbers: digits, `.`, `e`, `E`, `+`, `-`, not starting with `-` (what Python prints for a
-finite number, sign removed) -/
-def plainNumChar (c : Char) : Bool := isDigit c || c == '.' || c == 'e' || c == 'E' || c == '+' || c == '-'
-
-def PlainNum (s : Str) : Prop := s.all plainNumChar = true ∧ s.head? ≠ some '-'
-
-theorem padBrackets_plain : ∀ s : Str, (∀ c ∈ s, c ≠ '(' ∧ c ≠ ')' ∧ c ≠ '[' ∧ c ≠ ']') → padBrackets s = s := by
-  intro s
-  induction s with
-  | nil => intro _; rfl
-  | cons c cs ih =>
-    intro h
-    obtain ⟨h1, h2, h3, h4⟩ := h c (by simp)
-    simp [padBrackets, h1, h2, h3, h4, ih (fun x hx => h x (by simp [hx]))]
-
-theorem stripL_plain (s : Str) (h : s.head? ≠ some ' ') : stripL s = s := by
-  cases s with
-  | nil => rfl
-  | cons c cs =>
-    have : c ≠ ' ' := by simpa using h
-    unfold stripL
-    split
-    · rename_i heq; cases heq; exact absurd rfl this
-    · rfl
-
-theorem strip_plain (s : Str) (h1 : s.head? ≠ some ' ') (h2 : s.reverse.head? ≠ some ' ') : strip s = s := by
-  unfold strip
-  rw [stripL_plain s h1, stripL_plain s.reverse h2, List.reverse_reverse]
-
-theorem plain_not_special (c : Char) (h : plainNumChar c = true) :
-    c ≠ '(' ∧ c ≠ ')' ∧ c ≠ '[' ∧ c ≠ ']' ∧ c ≠ ' ' := by
-  refine ⟨?_, ?_, ?_, ?_, ?_⟩ <;> (rintro rfl; revert h; decide)
-
-/-- the cache key token of an exported number is its text -/
-theorem argToken_numExpr (x : Num) (h : PlainNum x.txt) : argToken (numExpr x) = x.str := by
-  have hr : (numExpr x).render = x.str := by
-    unfold numExpr Num.str
-    split <;> simp [Expr.render, Expr.level]
-  have hall : ∀ c ∈ x.str, plainNumChar c = true := by
-    intro c hc
-    unfold Num.str at hc
-    split at hc
-    · rcases List.mem_cons.mp hc with rfl | hc
-      · decide
-      · exact List.all_eq_true.mp h.1 c hc
-    · exact List.all_eq_true.mp h.1 c hc
-  unfold argToken
-  rw [hr, padBrackets_plain _ (fun c hc => by
-    obtain ⟨a, b, c', d, _⟩ := plain_not_special c (hall c hc); exact ⟨a, b, c', d⟩)]
-  apply strip_plain
-  · intro hh
-    cases hs : x.str with
-    | nil => simp [hs] at hh
-    | cons a as =>
-      rw [hs] at hh
-      simp only [List.head?_cons, Option.some.injEq] at hh
-      exact (plain_not_special a (hall a (by rw [hs]; simp))).2.2.2.2 hh
-  · intro hh
-    cases hs : x.str.reverse with
-    | nil => simp [hs] at hh
-    | cons a as =>
-      rw [hs] at hh
-      simp only [List.head?_cons, Option.some.injEq] at hh
-      have : a ∈ x.str := by
-        have : a ∈ x.str.reverse := by rw [hs]; simp
-        simpa using this
-      exact (plain_not_special a (hall a this)).2.2.2.2 hh
-
-theorem num_str_inj (x y : Num) (hx : PlainNum x.txt) (hy : PlainNum y.txt) (h : x.str = y.str) : x = y := by
-  obtain ⟨xn, xt⟩ := x
-  obtain ⟨yn, yt⟩ := y
-  cases xn <;> cases yn <;> simp only [Num.str, Bool.false_eq_true, if_false, if_true] at h
-  · subst h; rfl
-  · subst h; exact absurd rfl hx.2
-  · subst h; exact absurd rfl hy.2
-  · cases h; rfl
-
-theorem numExpr_inj (x y : Num) (h : numExpr x = numExpr y) : x = y := by
-  obtain ⟨xn, xt⟩ := x
-  obtain ⟨yn, yt⟩ := y
-  cases xn <;> cases yn <;> simp only [numExpr, Bool.false_eq_true, if_false, if_true] at h
-  · cases h; rfl
-  · cases h
-  · cases h
-  · cases h; rfl
-
-/-- splitting at the first `(` -/
-theorem append_paren_inj : ∀ (a a' b b' : Str), (∀ c ∈ a, c ≠ '(') → (∀ c ∈ a', c ≠ '(') →
-    a ++ '(' :: b = a' ++ '(' :: b' → a = a' ∧ b = b' := by
-  intro a
-  induction a with
-  | nil =>
-    intro a' b b' _ h' h
-    cases a' with
-    | nil => simpa using h
-    | cons x xs =>
-      simp only [List.nil_append, List.cons_append, List.cons.injEq] at h
-      exact absurd h.1.symm (h' x (by simp))
-  | cons x xs ih =>
-    intro a' b b' hx h' h
-    cases a' with
-    | nil =>
-      simp only [List.nil_append, List.cons_append, List.cons.injEq] at h
-      exact absurd h.1 (hx x (by simp))
-    | cons y ys =>
-      simp only [List.cons_append, List.cons.injEq] at h
-      obtain ⟨rfl, h2⟩ := h
-      obtain ⟨rfl, rfl⟩ := ih ys b b' (fun c hc => hx c (by simp [hc])) (fun c hc => h' c (by simp [hc])) h2
-      exact ⟨rfl, rfl⟩
-
-/-- the calls of one exported statement -/
-def ExpCall (n : Str) (ps : List Expr) : Prop :=
-  (∀ c ∈ n, c ≠ '(') ∧ ((ps = []) ∨ ∃ x : Num, PlainNum x.txt ∧ ps = [numExpr x])
-
-theorem expCall_keyInj (C : Str → List Expr → Prop) (hC : ∀ n ps, C n ps → ExpCall n ps) : KeyInj C := by
-  intro n ps n' ps' h1 h2 hk
-  obtain ⟨hn, hp⟩ := hC n ps h1
-  obtain ⟨hn', hp'⟩ := hC n' ps' h2
-  rcases hp with rfl | ⟨x, hx, rfl⟩ <;> rcases hp' with rfl | ⟨y, hy, rfl⟩
-  · simpa [customName] using hk
-  · exfalso
-    simp only [customName, List.isEmpty_nil, if_true, List.isEmpty_cons, Bool.false_eq_true, if_false] at hk
-    have : '(' ∈ n := by rw [hk]; simp
-    exact hn _ this rfl
-  · exfalso
-    simp only [customName, List.isEmpty_nil, if_true, List.isEmpty_cons, Bool.false_eq_true, if_false] at hk
-    have : '(' ∈ n' := by rw [← hk]; simp
-    exact hn' _ this rfl
-  · simp only [customName, List.isEmpty_cons, Bool.false_eq_true, if_false, List.map_cons, List.map_nil,
-      intercal] at hk
-    rw [List.append_assoc, List.append_assoc] at hk
-    obtain ⟨rfl, h3⟩ := append_paren_inj n n' _ _ hn hn' (by simpa using hk)
-    have h4 : argToken (numExpr x) = argToken (numExpr y) := by
-      have := congrArg List.reverse h3
-      simpa using this
-    rw [argToken_numExpr x hx, argToken_numExpr y hy] at h4
-    exact ⟨rfl, by rw [num_str_inj x y hx hy h4]⟩
-
 /-! ## the exported program is a program of W₁ -/
 
-theorem shape_np : ∀ e ∈ exportShape, e.2.2.2 ≤ 1 ∨ predefined (qasmName e.1) = true := by decide
+theorem exprWf_numExpr (x : Num) (h : isNumToken x.txt = true) : ExprWf (numExpr x) = true := by
+  unfold numExpr
+  split <;> simpa [ExprWf] using h
 
-theorem isWordStr_no_paren (w : Str) (h : isWordStr w = true) : ∀ c ∈ w, c ≠ '(' := by
-  intro c hc hcp
-  subst hcp
-  cases w with
-  | nil => cases hc
-  | cons a as =>
-    simp only [isWordStr, Bool.and_eq_true] at h
-    rcases List.mem_cons.mp hc with rfl | hc
-    · exact absurd h.1 (by decide)
-    · exact absurd (List.all_eq_true.mp h.2 _ hc) (by decide)
-
-/-- the user-gate calls of an exported statement have one of the two shapes of `ExpCall` -/
-theorem stmtOf_expCall {N : Nat} (g : Gate) (hg : GoodGate N g) (hplain : ∀ x ∈ argNums g.arg, PlainNum x.txt)
-    (n : Str) (ps : List Expr) (h : callOf (stmtOf g) = some (n, ps)) (hpre : predefined n = false) :
-    ExpCall n ps := by
+/-- the calls of an exported statement: the name is an identifier, the parameters are numeric tokens -/
+theorem stmtOf_wf {N : Nat} (g : Gate) (hg : GoodGate N g) (n : Str) (ps : List Expr)
+    (h : callOf (stmtOf g) = some (n, ps)) : isIdent n = true ∧ ∀ e ∈ ps, ExprWf e = true := by
   unfold stmtOf at h
   simp only [] at h
   split at h
@@ -209,20 +59,12 @@ theorem stmtOf_expCall {N : Nat} (g : Gate) (hg : GoodGate N g) (hplain : ∀ x 
   · rename_i hne
     simp only [callOf, callOfOp, Option.some.injEq, Prod.mk.injEq] at h
     obtain ⟨rfl, rfl⟩ := h
-    rcases qasmName_facts hg with ⟨hU, _⟩ | ⟨_, _, hw⟩
+    rcases qasmName_facts hg with ⟨hU, _⟩ | ⟨_, hid, hw⟩
     · exact absurd (by rw [hU]; decide) hne
-    · refine ⟨isWordStr_no_paren _ hw, ?_⟩
-      have hlen : (argNums g.arg).length ≤ 1 := by
-        rcases shape_np _ (shapeOf_mem hg.shape) with h1 | h1
-        · exact h1
-        · rw [h1] at hpre; cases hpre
-      cases ha : argNums g.arg with
-      | nil => left; rfl
-      | cons x xs =>
-        right
-        cases xs with
-        | nil => exact ⟨x, hplain x (by rw [ha]; simp), rfl⟩
-        | cons y ys => rw [ha] at hlen; simp at hlen
+    · refine ⟨by simp [isIdent, hid, hw], ?_⟩
+      intro e he
+      obtain ⟨x, hx, rfl⟩ := List.mem_map.mp he
+      exact exprWf_numExpr x (hg.nums x hx)
 
 theorem gdefs_few (c : Circuit) (hc : GoodCircuit c) : (gdefsOf c).length ≤ 64 := by
   have h1 : (gdefsOf c).length ≤ (addedNames c.ops Gen.gateNameToQasm).length := List.length_filterMap_le _ _
@@ -237,8 +79,7 @@ theorem gdefs_few (c : Circuit) (hc : GoodCircuit c) : (gdefsOf c).length ≤ 64
   have h3 : defKeys.length ≤ 64 := by decide
   omega
 
-theorem programOf_W1 (c : Circuit) (hc : GoodCircuit c) (hN : Gen.emptyRegOk = true ∨ 0 < c.N)
-    (hplain : ∀ g, Op.gate g ∈ c.ops → ∀ x ∈ argNums g.arg, PlainNum x.txt) :
+theorem programOf_W1 (c : Circuit) (hc : GoodCircuit c) (hN : Gen.emptyRegOk = true ∨ 0 < c.N) :
     W1 (programOf c) (.qreg cs!"q" c.N :: (if c.numCbits ≠ 0 then [.creg cs!"c" c.numCbits] else []))
       (gdefsOf c) (c.ops.filterMap stmtOfOp) := by
   have hops : ∀ s ∈ c.ops.filterMap stmtOfOp, ∃ g, Op.gate g ∈ c.ops ∧ s = stmtOf g := by
@@ -277,16 +118,14 @@ theorem programOf_W1 (c : Circuit) (hc : GoodCircuit c) (hN : Gen.emptyRegOk = t
   · intro s hs e he
     obtain ⟨g, _, rfl⟩ := hops s hs
     exact paramsOf_stmtOf g e he
-  · apply expCall_keyInj
-    rintro n ps ⟨s, hs, hcall, hpre⟩
+  · intro s hs n ps hcall _
     obtain ⟨g, hg, rfl⟩ := hops s hs
     obtain ⟨g', he, hgood⟩ := hc _ hg
     cases he
-    exact stmtOf_expCall g hgood (hplain g hg) n ps hcall hpre
+    exact stmtOf_wf g hgood n ps hcall
 
 /-- **Export, then import: the same unitary — circuits with emitted definitions included.** -/
-theorem roundtrip_den_defs (c : Circuit) (hc : GoodCircuit c) (hN : Gen.emptyRegOk = true ∨ 0 < c.N)
-    (hplain : ∀ g, Op.gate g ∈ c.ops → ∀ x ∈ argNums g.arg, PlainNum x.txt) :
+theorem roundtrip_den_defs (c : Circuit) (hc : GoodCircuit c) (hN : Gen.emptyRegOk = true ∨ 0 < c.N) :
     ∃ lines P iops A B, exportCore c = .ok lines ∧ parseLines lines = some P ∧
       importProgram P = .ok (c.N, (cregsOf c.numCbits).total, iops) ∧
       denX c.N (c.ops.filterMap xOfOp) = some A ∧ denIOps c.N iops = some B ∧ PhaseEqN B A := by
@@ -301,7 +140,7 @@ theorem roundtrip_den_defs (c : Circuit) (hc : GoodCircuit c) (hN : Gen.emptyReg
     cases hpp : opsPrims ops with
     | none => simp [hpp] at h4
     | some prims => exact ⟨prims, rfl, by simpa [hpp] using h4⟩
-  have hw := programOf_W1 c hc hN hplain
+  have hw := programOf_W1 c hc hN
   have hflat : flatten (programOf c) = .ok (finalEnv c, c.ops.filterMap flatOfOp) := flatten_programOf c hc
   have hk : ∀ s ∈ c.ops.filterMap stmtOfOp, ifRangeOk (finalEnv c) s := by
     intro s hs
